@@ -481,11 +481,15 @@ func (i *Interp) Explore(job *Job, setup, run *ssa.Function, lim Limits, base []
 		i.allocTrack = false
 		i.poolChoice = false
 		i.poolSeq = 0
-		if i.threads != nil {
-			i.threads = nil
-		}
+		i.threads = nil
 		i.solver.Push()
 		out := i.runPath(job, run, args)
+		var races []string
+		if i.threads != nil {
+			i.threads.killAll()
+			races = i.threads.races
+			i.threads = nil
+		}
 		res.Paths++
 		res.Steps += i.steps
 		res.Decisions += len(ps.trace)
@@ -496,6 +500,11 @@ func (i *Interp) Explore(job *Job, setup, run *ssa.Function, lim Limits, base []
 			res.Covers[c]++
 		}
 		res.Inconcl = append(res.Inconcl, ps.inconcl...)
+		if len(races) > 0 && out.kind != "bug" {
+			if i.solver.Check() == Sat {
+				ps.violations = append(ps.violations, Violation{Kind: "race", Msg: races[0], Witness: i.witness(job)})
+			}
+		}
 		switch out.kind {
 		case "ok":
 			if len(i.frozenHits) > 0 {
